@@ -21,7 +21,15 @@ fn twin_sys(x: &Cfg, order: Order, p: &str) -> Box<dyn Sys> {
     })
 }
 
-fn pair_space(property: &str, label: &str, mode: PairMode, alpha: Alphabet, typed: bool, mk_a: Box<dyn Fn() -> Box<dyn Sys> + Sync + Send>, mk_b: Box<dyn Fn() -> Box<dyn Sys> + Sync + Send>) -> PairSpace {
+fn pair_space(
+    property: &str,
+    label: &str,
+    mode: PairMode,
+    alpha: Alphabet,
+    typed: bool,
+    mk_a: Box<dyn Fn() -> Box<dyn Sys> + Sync + Send>,
+    mk_b: Box<dyn Fn() -> Box<dyn Sys> + Sync + Send>,
+) -> PairSpace {
     let ops = alpha.all_ops();
     PairSpace {
         property: property.to_string(),
@@ -36,7 +44,11 @@ fn pair_space(property: &str, label: &str, mode: PairMode, alpha: Alphabet, type
     }
 }
 
-pub fn run_pair_spaces(ctx: &Ctx, spaces: Vec<PairSpace>, lim: &Limits) -> (Vec<Stats>, Vec<Violation>) {
+pub fn run_pair_spaces(
+    ctx: &Ctx,
+    spaces: Vec<PairSpace>,
+    lim: &Limits,
+) -> (Vec<Stats>, Vec<Violation>) {
     let mut all = vec![];
     let mut vio = vec![];
     for s in spaces {
@@ -76,41 +88,116 @@ pub fn counts_of(stats: &[Stats]) -> std::collections::BTreeMap<String, u64> {
 }
 
 fn big_pattern(n: usize) -> Vec<u8> {
-    (0..n).map(|i| [0xff, 0x00, 0xc3, 0x28, b'a'][i % 5]).collect()
+    (0..n)
+        .map(|i| [0xff, 0x00, 0xc3, 0x28, b'a'][i % 5])
+        .collect()
 }
 
 pub fn run_c02(ctx: &Ctx) -> i32 {
     let info = ctx.info("C02", "model_checking");
-    let mk = |order: Order| -> (Box<dyn Fn() -> Box<dyn Sys> + Sync + Send>, Box<dyn Fn() -> Box<dyn Sys> + Sync + Send>) {
-        (Box::new(move || sync_sys(&Cfg::Mem, order, "")), Box::new(move || sync_sys(&Cfg::Phys, order, "")))
+    let mk = |order: Order| -> (
+        Box<dyn Fn() -> Box<dyn Sys> + Sync + Send>,
+        Box<dyn Fn() -> Box<dyn Sys> + Sync + Send>,
+    ) {
+        (
+            Box::new(move || sync_sys(&Cfg::Mem, order, "")),
+            Box::new(move || sync_sys(&Cfg::Phys, order, "")),
+        )
     };
     let mut spaces = vec![];
     let thorough = ctx.tier == Tier::Thorough;
     let (a, b) = mk(Order::Asc);
-    let w: Vec<&[u8]> = if thorough { vec![b"", b"x", b"\xff\x00"] } else { vec![b"", b"x"] };
-    spaces.push(pair_space("C02", "Mem~Phys", PairMode::Behaviour, alphabet(u22(), &w, if thorough { 5 } else { 2 }, true), true, a, b));
+    let w: Vec<&[u8]> = if thorough {
+        vec![b"", b"x", b"\xff\x00"]
+    } else {
+        vec![b"", b"x"]
+    };
+    spaces.push(pair_space(
+        "C02",
+        "Mem~Phys",
+        PairMode::Behaviour,
+        alphabet(u22(), &w, if thorough { 5 } else { 2 }, true),
+        true,
+        a,
+        b,
+    ));
     let (a, b) = mk(Order::Desc);
-    spaces.push(pair_space("C02", "Mem~Phys(desc)", PairMode::Behaviour, alphabet(u4(), &[b"x"], 1, true), true, a, b));
+    spaces.push(pair_space(
+        "C02",
+        "Mem~Phys(desc)",
+        PairMode::Behaviour,
+        alphabet(u4(), &[b"x"], 1, true),
+        true,
+        a,
+        b,
+    ));
     let (a, b) = mk(Order::Asc);
-    spaces.push(pair_space("C02", "Mem~Phys names", PairMode::Behaviour, alphabet(u_names(), &[b"x"], 1, thorough), true, a, b));
+    spaces.push(pair_space(
+        "C02",
+        "Mem~Phys names",
+        PairMode::Behaviour,
+        alphabet(u_names(), &[b"x"], 1, thorough),
+        true,
+        a,
+        b,
+    ));
     // large and non-UTF-8 contents around the 8 KiB copy buffer, through create / copy / move
     let big = big_pattern(8193);
     let big2 = big_pattern(65537);
     let (a, b) = mk(Order::Asc);
-    let contents: Vec<&[u8]> = if thorough { vec![&big, &big2, b"\xff\x00"] } else { vec![&big, b"\xff\x00"] };
-    let mut alpha = alphabet(Universe::new("U{a,b,a/a}", &["/a", "/b", "/a/a"]), &contents, 1, true);
+    let contents: Vec<&[u8]> = if thorough {
+        vec![&big, &big2, b"\xff\x00"]
+    } else {
+        vec![&big, b"\xff\x00"]
+    };
+    let mut alpha = alphabet(
+        Universe::new("U{a,b,a/a}", &["/a", "/b", "/a/a"]),
+        &contents,
+        1,
+        true,
+    );
     alpha.append = b"\xfe".to_vec();
     alpha.append_cap = 3;
-    spaces.push(pair_space("C02", "Mem~Phys big contents", PairMode::Behaviour, alpha, true, a, b));
+    spaces.push(pair_space(
+        "C02",
+        "Mem~Phys big contents",
+        PairMode::Behaviour,
+        alpha,
+        true,
+        a,
+        b,
+    ));
     // names accepted by the host OS: every program of <= 2 (quick) / 3 (thorough) primitive calls
     let big_names = Universe::new(
         "U_big_names",
-        &["/.hidden", "/a b", "/~", "/*", "/\\", "/a\u{0301}", "/\u{1F600}", "/..a", "/a..", "/-", "/%41", "/CON", "/a\tb"],
+        &[
+            "/.hidden",
+            "/a b",
+            "/~",
+            "/*",
+            "/\\",
+            "/a\u{0301}",
+            "/\u{1F600}",
+            "/..a",
+            "/a..",
+            "/-",
+            "/%41",
+            "/CON",
+            "/a\tb",
+        ],
     );
     let (a, b) = mk(Order::Asc);
     let mut lim_names = limits(ctx);
     lim_names.max_depth = if thorough { 3 } else { 2 };
-    let names_space = pair_space("C02", "Mem~Phys host names (bounded depth)", PairMode::Behaviour, alphabet(big_names, &[b"x"], 1, false), true, a, b);
+    let names_space = pair_space(
+        "C02",
+        "Mem~Phys host names (bounded depth)",
+        PairMode::Behaviour,
+        alphabet(big_names, &[b"x"], 1, false),
+        true,
+        a,
+        b,
+    );
     let lim = limits(ctx);
     let (mut stats, mut vio) = run_pair_spaces(ctx, spaces, &lim);
     let (s2, v2) = run_pair_spaces(ctx, vec![names_space], &lim_names);
@@ -119,7 +206,8 @@ pub fn run_c02(ctx: &Ctx) -> i32 {
     for s in &mut s2 {
         if let Some(c) = &s.capped {
             if c.starts_with("depth cap") {
-                s.counters.insert("bounded_depth_complete".into(), lim_names.max_depth as u64);
+                s.counters
+                    .insert("bounded_depth_complete".into(), lim_names.max_depth as u64);
                 s.capped = None;
                 s.fixpoint = true;
             }
@@ -131,7 +219,12 @@ pub fn run_c02(ctx: &Ctx) -> i32 {
     let long = "n".repeat(255);
     let a = sync_sys(&Cfg::Mem, Order::Asc, "");
     let b = sync_sys(&Cfg::Phys, Order::Asc, "");
-    for op in [Op::CreateDir(format!("/{}", long)), Op::CreateFile(format!("/{}/{}", long, long), b"x".to_vec()), Op::RemoveDir(format!("/{}", long)), Op::RemoveFile(format!("/{}/{}", long, long))] {
+    for op in [
+        Op::CreateDir(format!("/{}", long)),
+        Op::CreateFile(format!("/{}/{}", long, long), b"x".to_vec()),
+        Op::RemoveDir(format!("/{}", long)),
+        Op::RemoveFile(format!("/{}/{}", long, long)),
+    ] {
         let (oa, _) = a.apply(&op);
         let (ob, _) = b.apply(&op);
         let probes = vec![format!("/{}", long), format!("/{}/{}", long, long)];
@@ -139,14 +232,19 @@ pub fn run_c02(ctx: &Ctx) -> i32 {
             vio.push(Violation {
                 property: "C02".into(),
                 signature: format!("Mem~Phys|{}|255-byte-name", op.name()),
-                summary: format!("{} on a 255 byte name: memory {} physical {}", op.name(), oa.short(), ob.short()),
+                summary: format!(
+                    "{} on a 255 byte name: memory {} physical {}",
+                    op.name(),
+                    oa.short(),
+                    ob.short()
+                ),
                 replay: json!({"engine": "pair", "pair": "Mem~Phys 255-byte name"}),
             });
         }
     }
     // write sessions with several write / seek / flush calls on one handle: both backends against
     // the same cursor model, hence against each other (the BFS above only has whole sessions)
-    let depth = if thorough { 4 } else { 3 };
+    let depth = if thorough { 5 } else { 4 };
     let mut ws = Stats { label: format!("Mem~Phys write/seek/flush scripts of depth {} on create handles, published bytes after every flush and after drop", depth), fixpoint: true, states: 1, ..Default::default() };
     for b in [crate::handle::HB::Mem, crate::handle::HB::Phys] {
         for prior in [None, Some(&b"abc"[..])] {
@@ -171,7 +269,11 @@ pub fn run_c02(ctx: &Ctx) -> i32 {
 // C07
 
 fn alt_pair(x: Cfg, p: &str, order: Order, alpha: Alphabet) -> PairSpace {
-    let label = format!("Alt({},{})~twin", x.label(), if p.is_empty() { "\"\"" } else { p });
+    let label = format!(
+        "Alt({},{})~twin",
+        x.label(),
+        if p.is_empty() { "\"\"" } else { p }
+    );
     let (x1, p1) = (x.clone(), p.to_string());
     let (x2, p2) = (x.clone(), p.to_string());
     pair_space(
@@ -211,11 +313,27 @@ fn hostile_args(k: usize) -> Vec<String> {
         }
         out.extend(next.iter().cloned());
         out.extend(next.iter().map(|x| format!("/{}", x)));
-        out.extend(next.iter().filter(|x| !x.contains('/')).map(|x| format!("\\{}", x)));
+        out.extend(
+            next.iter()
+                .filter(|x| !x.contains('/'))
+                .map(|x| format!("\\{}", x)),
+        );
         level = next;
     }
     // a few other odd spellings of "go up"
-    for odd in ["%2e%2e/S", "..%2fS", "...", "..../S", ". ./S", ".. /S", " ../S", "..\u{2215}S", "\u{2025}/S", "a/..\\..\\S", "..\\..\\..\\S/f"] {
+    for odd in [
+        "%2e%2e/S",
+        "..%2fS",
+        "...",
+        "..../S",
+        ". ./S",
+        ".. /S",
+        " ../S",
+        "..\u{2215}S",
+        "\u{2025}/S",
+        "a/..\\..\\S",
+        "..\\..\\..\\S/f",
+    ] {
         out.push(odd.to_string());
         out.push(format!("a/{}", odd));
     }
@@ -241,7 +359,12 @@ fn os_tree(dir: &std::path::Path, exclude: &std::path::Path, out: &mut Vec<Strin
                     out.push(format!("{} dir", p.display()));
                     os_tree(&p, exclude, out);
                 }
-                Ok(m) => out.push(format!("{} file {} {:?}", p.display(), m.len(), std::fs::read(&p).ok())),
+                Ok(m) => out.push(format!(
+                    "{} file {} {:?}",
+                    p.display(),
+                    m.len(),
+                    std::fs::read(&p).ok()
+                )),
                 Err(_) => out.push(format!("{} ?", p.display())),
             }
         }
@@ -250,16 +373,50 @@ fn os_tree(dir: &std::path::Path, exclude: &std::path::Path, out: &mut Vec<Strin
 
 /// Every hostile join argument x every call kind, from a few representative states: the calls
 /// must stay below P (recorded path arguments) and leave everything outside P untouched.
-fn hostile_sweep(cfg: &Cfg, p: &str, k: usize, vio: &mut Vec<Violation>, counters: &mut std::collections::BTreeMap<String, u64>) -> u64 {
+fn hostile_sweep(
+    cfg: &Cfg,
+    p: &str,
+    k: usize,
+    vio: &mut Vec<Violation>,
+    counters: &mut std::collections::BTreeMap<String, u64>,
+) -> u64 {
     let states: Vec<Vec<Op>> = vec![
         vec![],
-        vec![Op::CreateDir("/a".into()), Op::CreateFile("/a/a".into(), b"x".to_vec())],
-        vec![Op::CreateFile("/a".into(), b"x".to_vec()), Op::CreateDir("/Z".into()), Op::CreateDir("/S".into())],
+        vec![
+            Op::CreateDir("/a".into()),
+            Op::CreateFile("/a/a".into(), b"x".to_vec()),
+        ],
+        vec![
+            Op::CreateFile("/a".into(), b"x".to_vec()),
+            Op::CreateDir("/Z".into()),
+            Op::CreateDir("/S".into()),
+        ],
     ];
     let args = hostile_args(k);
-    let kinds = ["create_dir", "create_dir_all", "create_file", "append_file", "remove_file", "remove_dir", "remove_dir_all", "exists", "metadata", "read_dir", "open_file", "walk_dir", "copy_file_to", "copy_file_from", "move_file_to", "copy_dir_to", "move_dir_from", "set_modification_time"];
+    let kinds = [
+        "create_dir",
+        "create_dir_all",
+        "create_file",
+        "append_file",
+        "remove_file",
+        "remove_dir",
+        "remove_dir_all",
+        "exists",
+        "metadata",
+        "read_dir",
+        "open_file",
+        "walk_dir",
+        "copy_file_to",
+        "copy_file_from",
+        "move_file_to",
+        "copy_dir_to",
+        "move_dir_from",
+        "set_modification_time",
+    ];
     let mut runs = 0u64;
-    let work: Vec<(usize, &String)> = (0..states.len()).flat_map(|s| args.iter().map(move |a| (s, a))).collect();
+    let work: Vec<(usize, &String)> = (0..states.len())
+        .flat_map(|s| args.iter().map(move |a| (s, a)))
+        .collect();
     use rayon::prelude::*;
     let results: Vec<(u64, Vec<Violation>, u64)> = work
         .par_iter()
@@ -384,10 +541,14 @@ fn hostile_sweep(cfg: &Cfg, p: &str, k: usize, vio: &mut Vec<Violation>, counter
         .collect();
     for (n, v, invalid) in results {
         runs += n;
-        *counters.entry("hostile:join-rejected-as-invalid".into()).or_insert(0) += invalid;
+        *counters
+            .entry("hostile:join-rejected-as-invalid".into())
+            .or_insert(0) += invalid;
         vio.extend(v);
     }
-    *counters.entry(format!("hostile:{}:arguments", cfg.label())).or_insert(0) += args.len() as u64;
+    *counters
+        .entry(format!("hostile:{}:arguments", cfg.label()))
+        .or_insert(0) += args.len() as u64;
     runs
 }
 
@@ -408,21 +569,70 @@ pub fn run_c07(ctx: &Ctx) -> i32 {
     let mut spaces = vec![];
     spaces.push(alt_pair(Cfg::Mem, "/Z", Order::Asc, a22.clone()));
     spaces.push(alt_pair(Cfg::Mem, "/Z/Y", Order::Desc, a4.clone()));
+    // the three timestamp setters through the altroot (root included) against the twin
+    let mut a_set = alphabet(u3(), &[b"x"], 1, false);
+    a_set.setters = true;
+    spaces.push(alt_pair(Cfg::Mem, "/Z", Order::Asc, a_set.clone()));
+    spaces.push(alt_pair(Cfg::Mem, "", Order::Asc, a_set.clone()));
+    spaces.push(alt_pair(Cfg::Phys, "/Z/Y", Order::Asc, a_set.clone()));
     spaces.push(alt_pair(Cfg::Phys, "/Z", Order::Asc, a4.clone()));
     // odd characters in component names (foreign separator, leading dots, blanks)
-    let odd = Universe::new("U_odd", &["/a", "/a\\b", "/..a", "/a b", "/a/a\\b", "/a/.. "]);
-    spaces.push(alt_pair(Cfg::Mem, "/Z", Order::Asc, alphabet(odd.clone(), &[b"x"], 1, false)));
+    let odd = Universe::new(
+        "U_odd",
+        &["/a", "/a\\b", "/..a", "/a b", "/a/a\\b", "/a/.. "],
+    );
+    spaces.push(alt_pair(
+        Cfg::Mem,
+        "/Z",
+        Order::Asc,
+        alphabet(odd.clone(), &[b"x"], 1, false),
+    ));
     // an altroot directory whose own name is a prefix of the names below it (and of a sibling)
-    spaces.push(alt_pair(Cfg::Mem, "/a", Order::Asc, alphabet(u_names(), &[b"x"], 1, false)));
-    spaces.push(alt_pair(Cfg::Phys, "/a/a", Order::Desc, alphabet(u_names_small(), &[b"x"], 1, false)));
+    spaces.push(alt_pair(
+        Cfg::Mem,
+        "/a",
+        Order::Asc,
+        alphabet(u_names(), &[b"x"], 1, false),
+    ));
+    spaces.push(alt_pair(
+        Cfg::Phys,
+        "/a/a",
+        Order::Desc,
+        alphabet(u_names_small(), &[b"x"], 1, false),
+    ));
     if thorough {
-        spaces.push(alt_pair(Cfg::Mem, "/a", Order::Asc, alphabet(u_names(), &[b"x"], 1, true)));
-        spaces.push(alt_pair(Cfg::Phys, "/Z/Y", Order::Asc, alphabet(odd.clone(), &[b"x"], 1, true)));
+        spaces.push(alt_pair(
+            Cfg::Mem,
+            "/a",
+            Order::Asc,
+            alphabet(u_names(), &[b"x"], 1, true),
+        ));
+        spaces.push(alt_pair(
+            Cfg::Phys,
+            "/Z/Y",
+            Order::Asc,
+            alphabet(odd.clone(), &[b"x"], 1, true),
+        ));
         spaces.push(alt_pair(Cfg::Mem, "", Order::Asc, a22.clone()));
-        spaces.push(alt_pair(Cfg::Mem, "/Z/Y/X", Order::Asc, alphabet(u22(), &[b"", b"x"], 3, true)));
+        spaces.push(alt_pair(
+            Cfg::Mem,
+            "/Z/Y/X",
+            Order::Asc,
+            alphabet(u22(), &[b"", b"x"], 3, true),
+        ));
         spaces.push(alt_pair(Cfg::Phys, "/Z/Y", Order::Asc, a22.clone()));
-        spaces.push(alt_pair(Cfg::Ov(vec![Cfg::Mem, Cfg::Mem]), "/Z", Order::Asc, a4.clone()));
-        spaces.push(alt_pair(Cfg::alt(Cfg::Mem, "/W"), "/Z", Order::Asc, a22.clone()));
+        spaces.push(alt_pair(
+            Cfg::Ov(vec![Cfg::Mem, Cfg::Mem]),
+            "/Z",
+            Order::Asc,
+            a4.clone(),
+        ));
+        spaces.push(alt_pair(
+            Cfg::alt(Cfg::Mem, "/W"),
+            "/Z",
+            Order::Asc,
+            a22.clone(),
+        ));
     }
     let lim = limits(ctx);
     let (mut stats, mut vio) = run_pair_spaces(ctx, spaces, &lim);
@@ -431,7 +641,11 @@ pub fn run_c07(ctx: &Ctx) -> i32 {
     let k = if thorough { 4 } else { 3 };
     let mut runs = 0;
     let t0 = std::time::Instant::now();
-    let mut cfgs = vec![Cfg::alt(Cfg::Mem, "/Z"), Cfg::alt(Cfg::Phys, "/Z"), Cfg::Phys];
+    let mut cfgs = vec![
+        Cfg::alt(Cfg::Mem, "/Z"),
+        Cfg::alt(Cfg::Phys, "/Z"),
+        Cfg::Phys,
+    ];
     if thorough {
         cfgs.push(Cfg::alt(Cfg::Mem, "/Z/Y"));
         cfgs.push(Cfg::alt(Cfg::alt(Cfg::Mem, "/W"), "/Z"));
@@ -443,7 +657,12 @@ pub fn run_c07(ctx: &Ctx) -> i32 {
             _ => String::new(),
         };
         let n = hostile_sweep(cfg, &p, k, &mut vio, &mut counters);
-        println!("  [hostile joins on {}] runs={} ({:.1}s)", cfg.label(), n, t0.elapsed().as_secs_f64());
+        println!(
+            "  [hostile joins on {}] runs={} ({:.1}s)",
+            cfg.label(),
+            n,
+            t0.elapsed().as_secs_f64()
+        );
         runs += n;
     }
     let mut hs = Stats {
@@ -463,5 +682,15 @@ pub fn run_c07(ctx: &Ctx) -> i32 {
         "product BFS of Alt(Recorder(X),P) and the twin X' (same recipe, same P, same sentinels) with op(q) on the altroot and op(P/q) on the twin; plus an exhaustive sweep of hostile join arguments x call kinds; non-trivial = joint state changed or refused for a reason other than a missing parent",
         json!({"oracle": "twin filesystem (outcome class, error kind, raw snapshots, sub-tree view) + recorded path arguments below P + byte-identical snapshot outside P / outside the PhysicalFS root (OS level)"}),
     );
-    finish_counts(ctx, &info, cov, &["symlinks are out of scope (as the property says)", "PhysicalFS on tmpfs"], &vio, &counts)
+    finish_counts(
+        ctx,
+        &info,
+        cov,
+        &[
+            "symlinks are out of scope (as the property says)",
+            "PhysicalFS on tmpfs",
+        ],
+        &vio,
+        &counts,
+    )
 }
